@@ -1757,7 +1757,7 @@ class Runner:
     OP_PROP = {'new': 'C02', 'apply': 'C06', 'remove': 'C07', 'slice': 'C04', 'index': 'C04', 'iter': 'C04',
                'concat': 'C05', 'join': 'C05', 'pad': 'C12', 'simplify': 'C03', 'roundtrip': 'C03', 'strip': 'C11',
                'affix': 'C11', 'split': 'C11', 'replace': 'C11', 'assign': 'C11', 'expandtabs': 'C11', 'match': 'C16',
-               'twin': 'C13', 'find': 'C17', 'tostr': 'C01'}
+               'twin': 'C13', 'find': 'C17', 'tostr': 'C01', 'long': 'C04'}
     BASE_W = {'new': 3, 'copy': 2, 'apply': 10, 'remove': 7, 'clear': 1, 'slice': 7, 'index': 2, 'iter': 1,
               'concat': 8, 'join': 2, 'pad': 6, 'tostr': 8, 'find': 4, 'settingsat': 2, 'simplify': 3,
               'roundtrip': 3, 'strip': 3, 'affix': 2, 'split': 4, 'replace': 4, 'case': 2, 'assign': 2,
